@@ -7,10 +7,15 @@ on a freshly formatted FAT12/FAT16 volume (nothing else allocates, so the alloca
 replayed on the extracted model over the pure FAT store with all handles sharing one world (model runner mode c02).  Compared per operation: returned count / data / position / error, the position, and the
 file's extents (cluster list and sizes) against the model's extents and FAT chain; at the end the cached free count
 and the content read back through a fresh handle.  The same histories are also checked directly against a
-byte-array-with-cursor oracle written here from the property text (independent of the model)."""
+byte-array-with-cursor oracle written here from the property text (independent of the model).
+
+Third stream (props/volfile_corr.py): the image-level machine of Model/VolFile.v - the same file layer over the byte-level
+FAT store that is the FAT slice of the device image, data written through - run next to the library from the same device
+dump; FAT region, table entries in every copy and written clusters compared with the device after every call."""
 import vlib, sessions
 from vlib import hexs
 from props import sess_common as sc
+from props import volfile_corr
 
 PROP_FILES = ["Props/C02.v"]
 
@@ -300,6 +305,8 @@ def model_stream(rep, tier, rng):
 def run(rep, tier, seed):
     rng = vlib.Rng(seed)
     model_stream(rep, tier, vlib.Rng(seed * 7919 + 2))
+    # third stream: the image-level machine of Model/VolFile.v (the C02_image_* theorems) next to the library, on the device bytes
+    volfile_corr.stream(rep, tier, vlib.Rng(seed * 7919 + 3), "C02")
     confs = sessions.configs(tier)
     n = 80 if tier == "quick" else 1500
     scripts = []
